@@ -241,7 +241,7 @@ impl Prop for C14 {
     fn run(&self, _tier: Tier, _stage: usize, a: u64, b: u64, out: &mut WorkerOut) {
         let cs = cases();
         for i in a..b {
-            out.idx = Some(i);
+            out.at(i);
             let (kind, action, entry) = cs[i as usize];
             let case = format!("reentry|{} x {} via {}", kind, action, entry);
             expression_engine::verif_hooks::sync::clear_self_deadlock();
